@@ -127,6 +127,41 @@ def tags_of(beh):
     for a in beh:
         if a["a"] == "CherryPickMany":
             t.add("pickmany:%s" % ("adjacent" if a["cs"][1] == a["cs"][0] + 1 else "skip"))
+            if a["cs"][1] != a["cs"][0] + 1:
+                # where did the skipped commit insert, relative to what the second picked commit inserted?
+                # (commit numbers follow the order of the Commit actions: the base commit is 1)
+                edits_of = {}
+                k = 1
+                pend = []
+                for b in beh:
+                    if b["a"] == "Edit" and b["kind"] == "ins":
+                        pend.append(b)
+                    elif b["a"] == "Commit":
+                        k += 1
+                        edits_of[k] = pend
+                        pend = []
+                skipped = [e for c in range(a["cs"][0] + 1, a["cs"][1]) for e in edits_of.get(c, [])]
+                second = edits_of.get(a["cs"][1], [])
+                if skipped and second:
+                    def newpos(e):
+                        us = [u for u, _ in e["c"]]
+                        return us.index(max(us))
+                    # did the branch that receives the picks move since the fork?  (commits made after the first
+                    # Switch back, i.e. between the last two Switch actions, belong to it)
+                    sw = [i for i, b in enumerate(beh) if b["a"] == "Switch"]
+                    br = [i for i, b in enumerate(beh) if b["a"] == "Branch"]
+                    commits_at = [i for i, b in enumerate(beh) if b["a"] == "Commit"]
+                    side_first = bool(br) and bool(sw) and not any(br[0] < i < sw[0] for i in commits_at) and len(sw) >= 2
+                    # picks are made onto the branch we are on at the end; it is untouched if every commit after the
+                    # Branch was made on the other one
+                    if len(sw) == 1:
+                        moved = False                       # commits on the first branch, switch, pick onto the second
+                    else:
+                        moved = any(br[0] < i < sw[0] for i in commits_at) if len(sw) % 2 == 0 else True
+                    t.add("pickmany:skipped-%s-%s:%s:%s" % (
+                        "h" if skipped[-1]["who"] == "H" else "A", "h" if second[-1]["who"] == "H" else "A",
+                        "above" if newpos(skipped[-1]) <= newpos(second[-1]) else "below",
+                        "target-moved" if moved else "target-at-fork"))
     if any(a["a"] in ("CherryPickMany", "IRebase", "Rebase", "CherryPick") for a in beh):
         # ordered signature of who inserted where (top / middle / bottom), one entry per edit
         sig = []
@@ -185,7 +220,8 @@ def tags_of(beh):
 
 def select(behaviours, budget, seed, per_tag=2, tagger=None):
     """coverage first, then a seeded uniform sample:
-       1. every individual tag (abstract predicate) is covered by at least `per_tag` behaviours, shortest first;
+       1. every individual tag (abstract predicate) is covered by at least `per_tag` behaviours, rarest tag first,
+          shortest behaviour first;
        2. then one behaviour per distinct tag VECTOR, shortest first, in seeded order;
        3. then a seeded uniform sample of the rest."""
     rnd = random.Random(seed)
@@ -196,15 +232,24 @@ def select(behaviours, budget, seed, per_tag=2, tagger=None):
     order.sort(key=lambda i: len(tagged[i][1]))
     chosen, chosen_ids = [], set()
     cover = {}
+    # rarest tags first: a tag that only long behaviours carry (a skipped pick, a conflict at the second commit ...)
+    # must not lose its place to the many short behaviours that cover the common tags
+    by_tag = {}
     for i in order:
+        for t in tagged[i][0]:
+            by_tag.setdefault(t, []).append(i)
+    for t in sorted(by_tag, key=lambda x: (len(by_tag[x]), x)):
+        for i in by_tag[t]:
+            if cover.get(t, 0) >= per_tag or len(chosen) >= budget:
+                break
+            if i in chosen_ids:
+                continue
+            chosen.append(tagged[i][1])
+            chosen_ids.add(i)
+            for t2 in tagged[i][0]:
+                cover[t2] = cover.get(t2, 0) + 1
         if len(chosen) >= budget:
             break
-        tags, b = tagged[i]
-        if any(cover.get(t, 0) < per_tag for t in tags):
-            chosen.append(b)
-            chosen_ids.add(i)
-            for t in tags:
-                cover[t] = cover.get(t, 0) + 1
     by_vec = {}
     for i in order:
         by_vec.setdefault(tagged[i][0], []).append(i)
